@@ -505,6 +505,7 @@ GENOME_K = [19673, 68853, 275037, 1100160]
 TIMEOUT_MS = 180000
 
 def cases(seed, tier):
+    _TIER[0] = tier
     r = rng(seed, "C15")
     quick = tier == "quick"
     # the empty value, and one maximal hand-written value
@@ -617,8 +618,10 @@ RULE = ("rt: the zero value; every combination of nil / empty / non-empty at the
         "CONTIG, comments, %-escapes, no ##FASTA) that the parser may reject (named skip). dec cases are outside the quantifier "
         "(correspondence only). non-trivial = the value has a feature or a non-empty string; distinct by case text")
 EXHAUSTIVE = {"quick": False, "thorough": False}
-TRUSTED_BASE = ["encoding/json's text layer (string escaping, UTF-8, number syntax, indentation): corresponded through a Lean JSON "
-                "reader/printer (Base/JsonRead.lean, Base/JVal.lean), not modelled",
+TRUSTED_BASE = ["encoding/json's text layer = the Lean printer (Base/JVal.lean: Go's escapes \\\" \\\\ \\b \\f \\n \\r \\t \\u00XX \\u003c \\u003e "
+                "\\u0026 \\u2028 \\u2029, integers, compact layout) and reader (Base/JsonRead.lean): the pair is proved to round-trip "
+                "(Lemmas/JsonText.lean); that Go's Marshal writes the same bytes and its Unmarshal reads the same values is "
+                "corresponded on every case; UTF-8 and MarshalIndent's layout are not modelled",
                 "harness/cmd/extract-io/gen_c15.go also lists, for every struct reachable from poly.Sequence and every field / element / "
                 "key type, the json / text (un)marshaler interfaces it implements (theorem no_custom_codecs: none)",
                 "harness/cmd/extract-io/gen_c15.go: the JSON member name of each field is observed from json.Marshal/Unmarshal of "
@@ -646,15 +649,22 @@ PARTIAL = ["third clause outside printable ASCII: convert_same_gbk / convert_sam
            "(and corresponded) on printable-ASCII values without integer overflow only. For values with other text the clause is "
            "proved for every writer that respects value equality (convert_same); that the two real writers do is checked by byte "
            "comparison of their outputs before and after the round trip on every case, not proved",
-           "the JSON text layer (escaping, UTF-8, number syntax, indentation) is encoding/json's: every theorem is about JSON values; "
-           "the step from a value to its text and back is corresponded through a Lean JSON reader / printer on every case, not proved"]
+           "the JSON text layer: proved for the Lean printer and reader (json_text_roundtrip: the reader reads back every value "
+           "the printer writes; text_roundtrip*: clause 1 as parse(text(write x)) = x). What stays trusted is that "
+           "encoding/json IS that printer and reader: json.Marshal's text equals the printer's text byte for byte (compared "
+           "on every case, `marshal-text`), json.Unmarshal / polyjson.Parse read the printer's text and Go's own compact and "
+           "indented texts like the reader (compared on every case); MarshalIndent's layout (polyjson.Write) is read by the "
+           "reader but has no printer of its own in Lean; UTF-8 encoding of code points is below the model (strings are code "
+           "point lists)"]
 TECHNIQUE = ("Lean 4 proof over a model of json.Marshal / json.Unmarshal / polyjson.Parse / AddFeature / GetSequence whose struct "
              "table (fields, JSON member names, kinds) is regenerated from the compiled types; decide on the table, structural "
              "induction over values and location trees; conversion clause instantiated for the C03 / C14 writer models through "
              "field views; differential correspondence incl. the real JSON text")
 LEVEL_TEXT = ("Kernel-checked for all values (any strings, integers, list lengths, nesting depth): unmarshal_marshal (Unmarshal∘Marshal "
               "is the identity up to nil parent pointers, nil-ness of every collection included), parse_marshal (exact result of "
-              "polyjson.Parse∘Marshal), roundtrip / roundtrip_exact / roundtrip_spec / unmarshal_equiv, relinked_parent, relinked_any "
+              "polyjson.Parse∘Marshal), roundtrip / roundtrip_exact / roundtrip_spec / unmarshal_equiv, the same at the level of JSON TEXT for the Lean printer and "
+              "reader (json_string_roundtrip, json_int_roundtrip, json_text_roundtrip: read(print v) = v for every JSON value; "
+              "text_roundtrip_exact / text_roundtrip / text_roundtrip_self / text_unmarshal: parse(text(write x)) = x), relinked_parent, relinked_any "
               "(any report function of parent text and location, any text), relinked_reports / relinked (the GetSequence model, ASCII "
               "parent text), getSeq_nil_empty, convert_same (any writer respecting value equality) and its instances convert_same_gbk, "
               "convert_same_gff, convert_same_gbk_pipe, convert_same_gff_pipe for the models of genbank.Build (C03, every map iteration "
@@ -680,4 +690,12 @@ HARNESS_BIN = "run-io"
 EXTRACT_BINS = ["extract-io"]
 
 # the same requests executed 8 at a time in concurrent goroutines (check: PARALLEL / harness: VERIF_PAR)
-PARALLEL = {"quick": {"par": 8, "max_cases": 1500}, "thorough": {"par": 8, "max_cases": 40000, "race": True}}
+import re as _re
+_TIER = ["quick"]
+
+def par_filter(line):
+    """cases of the concurrent run: as the default (case lines below 20 000 characters), and in the quick tier without
+    the genome-sized values (they would be rendered and judged a second time: 25 s)"""
+    return len(line) < 20000 and (_TIER[0] != "quick" or _re.search(r" r\d+\*s", line) is None)
+
+PARALLEL = {"quick": {"par": 8, "max_cases": 400}, "thorough": {"par": 8, "max_cases": 40000, "race": True}}
